@@ -1,0 +1,46 @@
+//go:build verif
+
+package object
+
+// Contracts for the deductive verifier in /verif (vcgo). Comment-only.
+//
+// Objects are immutable once built. The accessors are specified against ghost
+// attribute functions; these contracts are ASSUMED (the packed representation
+// is read through unsafe pointers, outside the verifier's subset) and listed as
+// such in every evidence file that uses them.
+
+//@ ghost func objID(o ref) string
+//@ ghost func objExpires(o ref) int
+//@ ghost func objSpatial(o ref) bool
+//@ ghost func objGeo(o ref) ref
+//@ ghost func objStr(o ref) string
+//@ ghost func objWeight(o ref) int
+//@ ghost func objFields(o ref) ref
+
+//@ func Object.ID
+//@   assumed
+//@   modifies nothing
+//@   ensures result == objID(o)
+//@ func Object.Expires
+//@   assumed
+//@   modifies nothing
+//@   ensures result == objExpires(o)
+//@ func Object.IsSpatial
+//@   assumed
+//@   modifies nothing
+//@   ensures result == objSpatial(o)
+//@ func Object.Geo
+//@   assumed
+//@   modifies nothing
+//@   ensures result == objGeo(o) && (o != nil ==> result != nil)
+//@ func Object.String
+//@   assumed
+//@   modifies nothing
+//@   ensures result == objStr(o)
+//@ func Object.Weight
+//@   assumed
+//@   modifies nothing
+//@   ensures result == objWeight(o)
+//@ func Object.Rect
+//@   assumed
+//@   modifies nothing
